@@ -81,6 +81,9 @@ def type_region(t, env, tagdefault=None):
         k = x["k"]
         if k == "REF" and _bare_string_alias(env[x["name"]], env): return "F111"   # 8 bits per character
         if k == "CHOICE" and _ext_alts_unordered(x, env, tagdefault): return "illegal-module:ext-alternatives-not-in-tag-order"
+        if k == "ENUMERATED" and x.get("ext"):
+            rv, xv = genmod.enum_values(x)
+            if min(xv) < max(rv): return "F190"        # an addition below a root value: root / addition told apart by map position
         # SIZE(lb..MAX,...) (former F112 region), permitted alphabets whose largest character value is exactly 2^b (former F114
         # region) and INTEGER (MIN..ub,...) (former F94 region) are compared like any other type
     return None
@@ -329,6 +332,14 @@ PROPOSED_FINDINGS = [
               "enumeration indexes differ: value 1 is index 0 instead of 1 (and the value 0 does not exist)",
        "M DEFINITIONS ::= BEGIN T ::= ENUMERATED { a(1), b } END", "T", "enc uper (enum 1)", r"^ok 00$",
        "an ENUMERATED mixing numbered and un-numbered items where max+1 numbering differs from X.680 20.3", "ok 80"),
+    _w("F190", "UPER (and APER): NativeEnumerated_encode_uper / _decode_uper tell root items from extension additions by the POSITION in the "
+               "value2enum map, which is sorted by value over root and additions together (position >= specs->extension - 1 means addition): "
+               "correct only if every addition is larger than every root value.  ENUMERATED { a, z(25), ..., d(1) } encodes the root item z(25) "
+               "as the first addition (80) and the addition d(1) as root index 1 (40); X.680 20.4/20.6 only require additions to increase among "
+               "themselves (the repository's own tests-asn1c-compiler/03-enum-OK.asn1 has `beta(12) -- May be less than the max value in the "
+               "root`)",
+       "M DEFINITIONS ::= BEGIN T ::= ENUMERATED { a, z(25), ..., d(1) } END", "T", "enc uper (enum 25)", r"^ok 80$",
+       "syntax == uper and the type contains an extensible ENUMERATED with an addition whose value is smaller than some root value", "ok 40"),
 ]
 
 def replay_proposed(ctx):
